@@ -1,12 +1,45 @@
 #!/usr/bin/env python3
-"""Print the markdown table of seeded changes (for DESIGN.md §11) from seeded/*/meta.json."""
-import json, glob, os
+"""Print the markdown table of seeded changes (DESIGN.md §11) from seeded/*/meta.json;
+with --write, splice it into DESIGN.md between the SEEDTABLE markers."""
+import glob
+import json
+import os
+import re
+import sys
+
+ROOT = os.path.dirname(os.path.dirname(os.path.abspath(__file__)))
+
+
+def clip(s, n):
+    s = re.sub(r'\s+', ' ', (s or '').replace('|', '/')).strip()
+    return s if len(s) <= n else s[:n - 1].rstrip() + '…'
+
+
 rows = []
-for m in sorted(glob.glob('/verif/seeded/*/meta.json')):
+missed = []
+for m in sorted(glob.glob(os.path.join(ROOT, 'seeded', '*', 'meta.json'))):
     d = json.load(open(m))
-    rows.append('| %s | %s | %s | %s | %s |' % (d['id'], d['property'], (d.get('summary') or '').replace('|', '/')[:230],
-                                              (d.get('needs') or '').replace('|', '/').replace('\n', ' ')[:200],
-                                              ', '.join(d.get('caught_by') or []) or '**not caught**'))
-print('| id | property | change | needs | caught by (quick tier, seed 0) |')
-print('|---|---|---|---|---|')
-print('\n'.join(rows))
+    caught = d.get('caught_by') or []
+    if not caught:
+        missed.append(d['id'])
+    classes = []
+    for p in caught:
+        for c in (d.get('violation_classes') or {}).get(p, [])[:1]:
+            mm = re.match(r'class=(\S+)', c)
+            if mm:
+                classes.append('%s `%s`' % (p, mm.group(1)))
+    rows.append('| %s | %s | %s | %s |' % (d['id'], clip(d.get('summary'), 210), clip(d.get('needs'), 170),
+                                         '; '.join(classes) or ', '.join(caught) or '**not caught**'))
+table = ['| id | change (one per sub-agent delivery) | needs | caught by: check and first violation class (quick tier, seed 0) |', '|---|---|---|---|'] + rows
+text = '\n'.join(table) + '\n\n%d seeded changes, %d caught by at least one registered quick check%s.\n' % (
+    len(rows), len(rows) - len(missed), '' if not missed else '; not caught: ' + ', '.join(missed))
+if '--write' in sys.argv:
+    p = os.path.join(ROOT, 'DESIGN.md')
+    s = open(p).read()
+    a, b = '<!-- SEEDTABLE-BEGIN -->', '<!-- SEEDTABLE-END -->'
+    if a not in s:
+        sys.exit('markers missing in DESIGN.md')
+    s = s[:s.index(a) + len(a)] + '\n' + text + s[s.index(b):]
+    open(p, 'w').write(s)
+else:
+    print(text)
